@@ -55,13 +55,17 @@ def emb_correspondence(ctx, n):
     for _ in range(n):
         V, L, D, nb = r.randint(1, 5), r.randint(1, 4), r.randint(1, 3), r.randint(1, 3)
         pad = r.choice([None, None, 0, V - 1, r.randrange(V)])
-        cases.append({'V': V, 'L': L, 'D': D, 'pad': pad, 'ids': [[r.randrange(V) if r.random() < 0.7 or pad is None else pad for _ in range(L)] for _ in range(nb)],
+        cases.append({'V': V, 'L': L, 'D': D, 'pad': pad, 'freq': r.random() < 0.3, 'ids': [[r.randrange(V) if r.random() < 0.7 or pad is None else pad for _ in range(L)] for _ in range(nb)],
                       'g': [[[r.randint(-3, 3) for _ in range(D)] for _ in range(L)] for _ in range(nb)]})
     res = vlib.run_impl('ghost_norms.py', {'emb': cases})['emb']
     items, owners = [], []
     for c, rr in zip(cases, res):
         ctx.case(c, kind='ghost-emb/%s' % ('pad' if c['pad'] is not None else 'nopad'),
                  nontrivial=any(len(set(row)) < len(row) for row in c['ids']) or (c['pad'] is not None and any(c['pad'] in row for row in c['ids'])))
+        if c['freq']:
+            if any(abs(a - b) > 1e-9 * (1 + abs(b)) for a, b in zip(rr['n2f'], rr['t2f'])):
+                ctx.fail('ghost-embedding-norm', 'nn.Embedding(padding_idx=%s, scale_grad_by_freq=True): ghost norm^2 %s != norm^2 of the per-sample gradient %s' % (c['pad'], rr['n2f'], rr['t2f']), c)
+            continue
         if rr['n2'] != rr['t2'] or rr['resid'] > 1e-6:
             ctx.fail('ghost-embedding-norm', 'nn.Embedding(padding_idx=%s): ghost norm^2 %s != norm^2 of the per-sample gradient %s' % (c['pad'], rr['n2'], rr['t2']), c)
         for i in range(len(c['ids'])):
